@@ -51,4 +51,37 @@ _seq("C24", "pruning is effective",
      "expected pruning is computed from the stored filters themselves (independent filter evaluator, fail-open on absent filters) and the public EvaluateDataBlockMetadata",
      "bounded-exhaustive enumeration of queries x layouts with a recording store")
 
+_seq("C03", "faithful, independent rows",
+     "every decodable row of the row alphabet on every compression and block split is paired by reflect.DeepEqual with json.Unmarshal(json.Marshal(row)); retained rows are compared with deep copies after other results were overwritten and later queries reused the scan buffers",
+     "sequential part (buffer reuse across queries of one goroutine); the concurrent pool-reuse scenario is part of the scheduler engine when present",
+     "bounded-exhaustive input enumeration against encoding/json as the reference decoder")
+_seq("C04", "prefilters never prune a satisfying block",
+     "every block population of one or two boundary values x every operator/operand combination, decided by exact math/big arithmetic at function, metadata, flush and merge level; AND/OR trees over minmax and partition conditions",
+     "NaN excluded (documented as not indexed); ±Inf only at function level (not JSON-marshalable)",
+     "bounded-exhaustive enumeration with an exact-arithmetic oracle")
+_seq("C11", "merge preserves content and answers",
+     "breadth-first search over Put/Merge histories (3 differently configured merge engines) with canonical-state deduplication; on every Merge edge the stored multiset, partition/minmax cover and 56 query answers are compared before and after",
+     "depth 5 (quick) / 7 (thorough) over a 5-batch alphabet; successor states are rebuilt by replaying the history on fresh in-memory stores",
+     "explicit-state breadth-first search over operation histories of the real engine with canonical-state deduplication", level="model_checking")
+_seq("C12", "merge output respects layout limits",
+     "same history BFS as C11; every output block of every Merge edge is decomposed into whole source blocks and checked against the merging engine's row/byte limits, partition and minmax-key-set homogeneity, files-per-merge and bytes-per-output limits",
+     "rows of different Puts are made distinct so that source blocks can be attributed exactly",
+     "explicit-state breadth-first search over operation histories of the real engine with canonical-state deduplication", level="model_checking")
+_seq("C17", "files describe themselves",
+     "every file written by every enumerated layout (flush and merge, all compressions, partitions, minmax keys) is parsed by an independent reader of FILE_FORMAT.md; counts, sizes, CRCs, compression and measured entry counts are recomputed and the public helpers must agree byte for byte",
+     "the bloom filter binary encoding itself is decoded with the bits-and-blooms library (a dependency, not the package under test)",
+     "bounded-exhaustive enumeration of layouts with an independent format parser")
+_seq("C18", "indexes cover their data",
+     "for every block of every enumerated layout the reference's field/token/field:token entries must test positive at block and file level; minmax key sets and ranges are recomputed from the original Go values, partition ids from the partition function",
+     "as C17",
+     "bounded-exhaustive enumeration of layouts with a reference index")
+_seq("C25", "expression trees mean what they say",
+     "all nested AND/OR combinations up to the stated depth are built through the public constructors and evaluated by the real engine against the nested combination as written; every tree and Query is JSON round-tripped, compared and re-run; builder chains of length <= 4",
+     "builder forms the documentation does not define (conditions chained before Match, repeated Match) and AND/OR nodes with a nil-Condition child in regex trees are not asserted",
+     "bounded-exhaustive enumeration of expression trees against a nested boolean reference")
+_seq("C26", "filters meet the configured rate",
+     "grid of entry counts x rates x producers; every stored filter must equal, bit for bit, the textbook-sized filter over the reference's entries, and its measured rate over 200000 fixed absent entries must stay within 3x the configured rate (+5 sigma)",
+     "the statistical clause is decided by an exact sizing/bit equality plus a fixed-universe measurement, not by a statistical test over random data; filters below 50 entries are a catalogued finding",
+     "bounded grid enumeration with an exact construction oracle", budget={"quick": 150, "thorough": 1500})
+
 NOT_YET = {}
